@@ -13,6 +13,8 @@ use serde_json::json;
 const SIZES: &[(usize, usize)] = &[
     (5, 3), (1, 1), (2, 1), (1, 2), (2, 2), (3, 3), (4, 5), (7, 2), (8, 8), (9, 9), (16, 3), (17, 17), (33, 2), (3, 40),
     (129, 1), (1, 129), (130, 130), (257, 129), (300, 70),
+    // widths whose squeeze levels leave 8 (mod 16) columns after the vector body, with a full block of 8 rows
+    (49, 8), (50, 9), (82, 8), (113, 16),
 ];
 const DEPTHS: &[u32] = &[8, 1, 2, 7, 9, 12, 15, 16, 24, 31];
 const N_PATTERNS: u32 = 8;
@@ -40,6 +42,8 @@ pub struct Config {
     pub ec_dim_shift: u32,
     /// C12: declare modular_16bit_buffers when (and only when) every intermediate value fits i16
     pub force16: bool,
+    /// with lz77 != 0: 0 = no copies written, 1 = greedy copies with special distance codes, 2 = plain distances
+    pub lz77_copies: u32,
 }
 
 pub fn config_from(t: &mut Tape) -> Config {
@@ -64,6 +68,7 @@ pub fn config_from(t: &mut Tape) -> Config {
         wide: t.flag(),
         ec_dim_shift: t.choose(3),
         force16: false,
+        lz77_copies: t.choose(3),
     }
 }
 
@@ -184,6 +189,7 @@ pub struct Built {
     /// truth: one Vec<i32> per image channel (colour then extra)
     pub truth: Vec<Channel>,
     pub desc: String,
+    pub lz77_copies: usize,
 }
 
 /// Returns None when the configuration is not expressible (e.g. RCT on a gray image); Err for an
@@ -459,13 +465,14 @@ pub fn build(c: &Config, seed: u64) -> Option<Built> {
         _ => CodeOpts { use_prefix: true, force_complex_prefix: true, cfg: Some(HybridCfg::new(0, 0, 0)), ..Default::default() },
     };
     if c.lz77 != 0 {
-        // LZ77 enabled in the header (no copies emitted by this writer; the decoder's LZ77 path is taken
-        // for every symbol).  lz77==2 uses the minimum min_symbol that still leaves room for literals.
+        // LZ77 enabled in the header (copies are written according to `lz77_copies`; with 0 the decoder's LZ77 path
+        // is taken for every symbol without any copy).  lz77==2 uses the minimum min_symbol that still leaves room for literals.
         spec.code.lz77 = Some(Lz77 {
             min_symbol: if c.lz77 == 1 { 224 } else { 512 },
             min_length: if c.lz77 == 1 { 3 } else { 9 },
             len_cfg: HybridCfg::new(if c.lz77 == 1 { 0 } else { 4 }, 0, 0),
         });
+        spec.lz77_copies = c.lz77_copies;
         if !spec.code.use_prefix {
             return None; // literal tokens must stay below min_symbol, ANS alphabets are <= 256 anyway: keep prefix only
         }
@@ -528,7 +535,7 @@ pub fn build(c: &Config, seed: u64) -> Option<Built> {
         let _ = &mut frame_bytes;
     }
     let bytes = write_codestream(&img, &Sel::default(), &[frame_bytes]);
-    Some(Built { bytes, m16, truth, desc })
+    Some(Built { bytes, m16, truth, desc, lz77_copies: enc.lz77_copies })
 }
 
 pub enum Verdict {
@@ -654,6 +661,36 @@ pub fn main(args: &crate::Args) {
         }
     }
     tapes.extend(prod);
+    // LZ77 copies inside Modular sub-bitstreams (distance multiplier = channel width): every size x repetitive pattern x
+    // LZ77 parameter set x distance coding x layout x tree x transform x prefix coder
+    let n_before_lz = tapes.len();
+    for si in 0..SIZES.len() as u32 {
+        for pattern in [1u32, 2, 3, 4, 5, 6, 0] {
+            for lz in 1..3u32 {
+                for copies in 1..3u32 {
+                    for layout in 0..2u32 {
+                        for tree in [0u32, 5, 14, 20] {
+                            for tr in [0u32, 1, 13] {
+                                for coder in [0u32, 3] {
+                                    let mut t = vec![0u32; 18];
+                                    t[0] = si;
+                                    t[1] = layout;
+                                    t[4] = pattern;
+                                    t[5] = tree;
+                                    t[8] = tr;
+                                    t[9] = coder;
+                                    t[10] = lz;
+                                    t[17] = copies;
+                                    tapes.push(t);
+                                }
+                            }
+                        }
+                    }
+                }
+            }
+        }
+    }
+    let n_lz = tapes.len() - n_before_lz;
     // multi-group images (several pass groups / LF groups) x every transform stack, TOC permutation, pass count,
     // group size and tree locality: cheap enough for every tier, and the only place where channels are cut into groups
     {
@@ -675,7 +712,7 @@ pub fn main(args: &crate::Args) {
         }
     }
     rep.rule = format!(
-        "encoder configuration = 17 dimensions (size {}, layout {}, bit depth {}, float kind 3, pattern {}, tree {}, leaf offset/multiplier 7, WP params 4, transform {}, coder 4, LZ77 3, global/local tree, group size 4, passes 3, TOC permutation 3, buffer width 2, ec dim_shift 3); ALL configurations within {} deviations of the default ({}), plus the full product predictor x tiny sizes x leaf variant x coder x width x depth; a case is non-trivial when it is encodable and decodes to a non-constant image; distinct by configuration tape",
+        "encoder configuration = 18 dimensions (size {}, layout {}, bit depth {}, float kind 3, pattern {}, tree {}, leaf offset/multiplier 7, WP params 4, transform {}, coder 4, LZ77 3, global/local tree, group size 4, passes 3, TOC permutation 3, buffer width 2, ec dim_shift 3, LZ77 copies 3); ALL configurations within {} deviations of the default ({}), plus the full product predictor x tiny sizes x leaf variant x coder x width x depth, and the LZ77-copy product (every size x 7 patterns x 2 LZ77 parameter sets x 2 distance codings x layout x 4 trees x 3 transforms x 2 prefix coders); a case is non-trivial when it is encodable and decodes to a non-constant image; distinct by configuration tape",
         SIZES.len(), N_LAYOUTS, DEPTHS.len(), N_PATTERNS, N_TREES, N_TRANSFORMS, bound,
         if quick { "quick tier: 2-deviation pairs restricted to small images with a tree or transform deviation" } else { "complete" }
     );
@@ -684,6 +721,7 @@ pub fn main(args: &crate::Args) {
         nontrivial: bool,
         viol: Option<(String, String)>,
         bytes: usize,
+        copies: usize,
     }
     let results = par_map(&tapes, n_threads(), |_, tp| {
         let mut t = Tape::from_answers(tp);
@@ -691,10 +729,11 @@ pub fn main(args: &crate::Args) {
         let (v, b) = run_config(&c, seed);
         let nontrivial = b.as_ref().map(|b| b.truth.iter().any(|ch| ch.data.iter().any(|&x| x != ch.data[0]))).unwrap_or(false);
         let bytes = b.as_ref().map(|b| b.bytes.len()).unwrap_or(0);
+        let copies = b.as_ref().map(|b| b.lz77_copies).unwrap_or(0);
         match v {
-            Verdict::Ok => R { outcome: "ok", nontrivial, viol: None, bytes },
-            Verdict::Skip => R { outcome: "not-expressible", nontrivial: false, viol: None, bytes },
-            Verdict::Bad(k, w) => R { outcome: "mismatch", nontrivial, viol: Some((k, w)), bytes },
+            Verdict::Ok => R { outcome: "ok", nontrivial, viol: None, bytes, copies },
+            Verdict::Skip => R { outcome: "not-expressible", nontrivial: false, viol: None, bytes, copies },
+            Verdict::Bad(k, w) => R { outcome: "mismatch", nontrivial, viol: Some((k, w)), bytes, copies },
         }
     });
     let mut skipped = 0;
@@ -727,11 +766,14 @@ pub fn main(args: &crate::Args) {
     rep.extra.insert("deviation_cases".into(), json!(n_dev));
     rep.extra.insert("full_product_cases".into(), json!(tapes.len() - n_dev));
     rep.extra.insert("not_expressible".into(), json!(skipped));
+    rep.extra.insert("lz77_product_cases".into(), json!(n_lz));
+    rep.extra.insert("streams_with_lz77_copies".into(), json!(results.iter().filter(|r| r.copies > 0).count()));
+    rep.extra.insert("lz77_copies_written".into(), json!(results.iter().map(|r| r.copies).sum::<usize>()));
     rep.exhaustive = !quick;
     rep.assumptions = vec![
         "jxlw (reference writer + reference inverse transforms) is the specification oracle; it agreed with the decoder on bring-up for every predictor incl. the weighted one".into(),
         "implicit palette entries on channel index >= 3 and ec_upsampling > 1 are outside the alphabet (oracle-uncertain / needs the upsampling kernel)".into(),
-        "LZ77 copies are exercised in C04; here LZ77 is only enabled in the stream header".into(),
+        "LZ77 copies in Modular sub-bitstreams are written by a greedy pass of the writer over the residual symbols (candidate distances 1-3, 7, the channel width w, w+-1, 2w, 2w+1, 8w+7, 121, 130), with the special two-dimensional distance codes or plain distance values; the entropy-level alphabet of copies is C04's".into(),
     ];
     rep.finish();
 }
